@@ -11,6 +11,22 @@ Import ListNotations.
 Fixpoint pure (v : val) : bool :=
   match v with VNil => true | VF _ _ _ u => pure u | _ => false end.
 
+(* nil or a foreign error (not a gerror value) *)
+Definition fgn (v : val) : bool := negb (is_gerr_val v).
+
+(* a foreign error's Unwrap chain: foreign wrappers ending in nil or in a VALID gerror value
+   (fmt.Errorf("ctx: %w", gerr) — such a wrapper is not itself a gerror error) *)
+Fixpoint chain_ok (st : store) (v : val) : bool :=
+  match v with
+  | VNil => true
+  | VF _ _ _ u => chain_ok st u
+  | VG i => match nth_error st i with Some _ => true | None => false end
+  | VX i => match nth_error st i with
+            | Some c => match c_x c with Some _ => true | None => false end
+            | None => false
+            end
+  end.
+
 (* every cell is a root (a factory as the pool builds them: no back-reference, no converted
    error; extension factories made with FactoryOf) or derived (back-reference to a root).  A
    derived error may itself have been turned into a factory with FactoryOf ("sub-factory"). *)
@@ -22,8 +38,10 @@ Inductive shape (st : store) (c : cell) : Prop :=
     g_fref (c_g c) = VG o -> nth_error st o = Some co ->
     g_fref (c_g co) = VNil -> g_serr (c_g co) = VNil -> g_later (c_g co) = [] ->
     (forall x, c_x co = Some x -> g_isfac (c_g co) = true) ->
-    pure (g_serr (c_g c)) = true ->
-    forallb pure (g_later (c_g c)) = true -> shape st c.
+    (* the recorded converted errors are not gerror values (Convert returns those unchanged); they
+       may be foreign wrappers OF gerror values *)
+    is_gerr_val (g_serr (c_g c)) = false ->
+    forallb fgn (g_later (c_g c)) = true -> shape st c.
 
 Definition wf (st : store) : Prop := forall i c, nth_error st i = Some c -> shape st c.
 
@@ -53,9 +71,10 @@ Definition val_of (st : store) (i : nat) : val :=
   end.
 
 (* what may be passed as the error argument of Convert / ConvertS, and what errors.Is may be
-   asked about: nil, a valid gerror value, or a foreign error without gerror values inside *)
+   asked about: nil, a valid gerror value, or a foreign error of any dynamic type whose Unwrap
+   chain ends in nil or in a valid gerror value *)
 Definition admissible (st : store) (v : val) : Prop :=
-  v = VNil \/ (exists i, gv st v = Some i) \/ (exists t c p u, v = VF t c p u /\ pure u = true).
+  v = VNil \/ (exists i, gv st v = Some i) \/ (exists t c p u, v = VF t c p u /\ chain_ok st u = true).
 
 (* a pool cell: a factory as programs build them *)
 Definition root_cell (c : cell) : Prop :=
